@@ -103,6 +103,8 @@ type Exec struct {
 	SafetyOff        bool
 	SafetyBounds     bool
 	CallsiteAssumptions map[string]int
+	pendingBindings []*Val
+	pendingTypeArgs []types.Type
 	SafetySkipped    int
 	heapTrace        map[string]*Sort
 }
